@@ -50,6 +50,7 @@ from vsc.visitors.variable_bound_visitor import VariableBoundVisitor
 from vsc.visitors.dynamic_expr_reset_visitor import DynamicExprResetVisitor
 from vsc.model.solve_failure import SolveFailure
 from vsc.visitors.ref_fields_postrand_visitor import RefFieldsPostRandVisitor
+from vsc.visitors.ref_fields_noncall_visitor import RefFieldsNonCallVisitor
 from vsc.model.rand_set_node_builder import RandSetNodeBuilder
 from vsc.model.rand_set_dispose_visitor import RandSetDisposeVisitor
 from vsc.visitors.clear_soft_priority_visitor import ClearSoftPriorityVisitor
@@ -559,6 +560,9 @@ class Randomizer(RandIF):
             
         for c in constraint_l:
             clear_soft_priority.clear(c)
+            
+        # Fields that are only referenced by this call are not randomized by it
+        RefFieldsNonCallVisitor.lock(field_model_l, constraint_l)
 
         # Collect all variables (pre-array) and establish bounds            
         bounds_v = VariableBoundVisitor()
